@@ -11,6 +11,7 @@ import (
 
 	"github.com/avos-io/goat/gen/goatorepo"
 	"google.golang.org/grpc"
+	"google.golang.org/grpc/metadata"
 	"google.golang.org/protobuf/proto"
 
 	"goatverif/bed"
@@ -261,6 +262,7 @@ func c06List(tier string, seed int64) []c06Case {
 	add("directed-refused-open", 1000, tierN(tier, 8, 80))
 	add("directed-bodies-after-server-deadline", 1000, tierN(tier, 4, 40))
 	add("directed-closesend-after-reset", 1000, tierN(tier, 6, 36))
+	add("directed-setheader-after-first-message", 1000, tierN(tier, 6, 36))
 	return out
 }
 
@@ -618,6 +620,81 @@ func c06CloseSendAfterReset(tier string, seed int64, idx int) *core.Result {
 	return res
 }
 
+// c06SetHeaderAfterFirstMessage: a handler whose first response carries no metadata tries to set
+// headers afterwards (SetHeader / SendHeader / grpc.SetHeader), then sends again and returns with
+// a trailer. Response metadata belongs to the first response envelope only: whatever the late
+// calls return, none of it may ride on a later body or on the trailer (the wire automaton's rule).
+func c06SetHeaderAfterFirstMessage(tier string, seed int64, idx int) *core.Result {
+	res := &core.Result{Verdict: core.Held}
+	h := bed.NewHooks()
+	h.Install()
+	b := bed.New(bed.Opts{Cap: idx % 3, Serialise: idx%2 == 0})
+	kind := []string{"bidi", "server"}[idx%2]
+	tag := fmt.Sprintf("shafm%d", idx)
+	var lateErr atomic.Value
+	b.Impl.SetStream(tag, func(t, k string, ss grpc.ServerStream) error {
+		if k == "server" {
+			ss.RecvMsg(new(svc.BV))
+		}
+		ss.SendMsg(&svc.BV{Value: []byte("first")})
+		var err error
+		switch idx % 3 {
+		case 0:
+			err = ss.SetHeader(metadata.Pairs("late", "header"))
+		case 1:
+			err = ss.SendHeader(metadata.Pairs("late", "header"))
+		default:
+			err = grpc.SetHeader(ss.Context(), metadata.Pairs("late", "header"))
+		}
+		if err != nil {
+			lateErr.Store(err)
+		}
+		if idx%2 == 0 {
+			ss.SendMsg(&svc.BV{Value: []byte("second")})
+		}
+		ss.SetTrailer(metadata.Pairs("t", "v"))
+		return nil
+	})
+	done := make(chan struct{})
+	var hdr metadata.MD
+	go func() {
+		defer close(done)
+		s, err := svc.Open(context.Background(), b.Conns[0], kind, tag, []byte("q"))
+		if err != nil {
+			return
+		}
+		if kind == "bidi" {
+			s.CloseSend()
+		}
+		for {
+			if _, err := s.Recv(); err != nil {
+				break
+			}
+		}
+		hdr, _ = s.Header()
+	}()
+	settle(tier, func() bool {
+		select {
+		case <-done:
+			return true
+		default:
+			return false
+		}
+	})
+	quiet(tier)
+	select {
+	case <-done:
+		if len(hdr.Get("late")) > 0 {
+			res.Violate("late-header-delivered", "headers set after the first response message had gone out without metadata were delivered to the caller as the stream's header: %v", hdr)
+		}
+		res.Stat("setheader_after_first_message", 1)
+	default:
+		res.Verdict, res.Note = core.Inconclusive, "caller did not finish"
+	}
+	finish(tier, b, h, res)
+	return res
+}
+
 // c06RefusedOpen: a stream open the server must refuse (undecodable request metadata), written
 // raw onto a live connection next to ordinary traffic. The server's whole history for that id is
 // one reset: no handler runs, nothing else is emitted.
@@ -767,6 +844,8 @@ func c06Run(tier string, seed int64, idx int) *core.Result {
 		sub = c06BodiesAfterDeadline(tier, seed, c.Index)
 	case "directed-closesend-after-reset":
 		sub = c06CloseSendAfterReset(tier, seed, c.Index)
+	case "directed-setheader-after-first-message":
+		sub = c06SetHeaderAfterFirstMessage(tier, seed, c.Index)
 	case "C01":
 		sub = c01Run(tier, seed, c.Index)
 	case "C02":
@@ -788,7 +867,7 @@ func c06Run(tier string, seed int64, idx int) *core.Result {
 	}
 	// each check reports only its own property: what the workload's own oracle found is not C06's business
 	for k, v := range sub.Stats {
-		if k == "send_parked_across_cancel" || k == "unary_deadline_in_handler" || k == "cancel_during_open_write" || k == "reset_after_handler_returned" || k == "open_on_ended_context" || k == "refused_opens" || k == "bodies_after_server_deadline" || k == "closesend_after_reset" {
+		if k == "send_parked_across_cancel" || k == "unary_deadline_in_handler" || k == "cancel_during_open_write" || k == "reset_after_handler_returned" || k == "open_on_ended_context" || k == "refused_opens" || k == "bodies_after_server_deadline" || k == "closesend_after_reset" || k == "setheader_after_first_message" {
 			res.Stat(k, v)
 		}
 	}
@@ -834,11 +913,11 @@ func init() {
 	core.Register(&core.Prop{
 		ID:    "C06",
 		Level: "exploration",
-		Rule:  "trace checking: a fixed-seed sample of the C01, C02, C03 (matrix and race families), C07 and C11 case lists (quick ~850 cases, thorough ~11 500) is re-run and every client link's tap log is projected per (id, direction) and fed to the protocol automata (stream open / body* / trailer+status / resets; unary exactly one request and one response; constant and swapped header fields; metadata only on the first response; server emits only for received ids; server reset only after a body and never before the trailer; end-of-history rules: stream handler returned, no client reset, connection alive => trailer; unary handler returned, connection alive => one response; a client reset is never the first envelope of an id), plus directed families: a send parked across a cancel, a unary deadline expiring inside the handler, a cancel while the opening envelope is inside the transport Write, a client reset reaching the server after the handler returned (trailer held in the writer), a call started on a context that has already ended, a raw stream open with undecodable metadata next to ordinary traffic (the server answers with exactly one reset), bodies arriving after the server-side deadline of a stream whose handler is still running (no reset for a stream the server still knows; exactly one trailer when the handler then returns), a half-close issued by the application after the client has reset the stream (cancel, deadline, unencodable send) over a transport that completes writes on an ended context. evaluations = workload cases; non-trivial = the case's wire history contains a reset or a non-OK trailer; distinct = distinct (workload, index).",
+		Rule:  "trace checking: a fixed-seed sample of the C01, C02, C03 (matrix and race families), C07 and C11 case lists (quick ~850 cases, thorough ~11 500) is re-run and every client link's tap log is projected per (id, direction) and fed to the protocol automata (stream open / body* / trailer+status / resets; unary exactly one request and one response; constant and swapped header fields; metadata only on the first response; server emits only for received ids; server reset only after a body and never before the trailer; end-of-history rules: stream handler returned, no client reset, connection alive => trailer; unary handler returned, connection alive => one response; a client reset is never the first envelope of an id), plus directed families: a send parked across a cancel, a unary deadline expiring inside the handler, a cancel while the opening envelope is inside the transport Write, a client reset reaching the server after the handler returned (trailer held in the writer), a call started on a context that has already ended, a raw stream open with undecodable metadata next to ordinary traffic (the server answers with exactly one reset), bodies arriving after the server-side deadline of a stream whose handler is still running (no reset for a stream the server still knows; exactly one trailer when the handler then returns), a half-close issued by the application after the client has reset the stream (cancel, deadline, unencodable send) over a transport that completes writes on an ended context, a handler that tries to set headers after its first response went out without metadata (nothing of it may appear on a later envelope). evaluations = workload cases; non-trivial = the case's wire history contains a reset or a non-OK trailer; distinct = distinct (workload, index).",
 		Plan:  func(tier string, seed int64) int { return len(c06List(tier, seed)) },
 		Run:   c06Run,
 		RequiredStats: func(string) []string {
-			return []string{"projections", "projections_with_reset_or_error", "handler_returns_checked", "envelopes", "send_parked_across_cancel", "unary_deadline_in_handler", "cancel_during_open_write", "reset_after_handler_returned", "open_on_ended_context", "refused_opens", "bodies_after_server_deadline", "closesend_after_reset"}
+			return []string{"projections", "projections_with_reset_or_error", "handler_returns_checked", "envelopes", "send_parked_across_cancel", "unary_deadline_in_handler", "cancel_during_open_write", "reset_after_handler_returned", "open_on_ended_context", "refused_opens", "bodies_after_server_deadline", "closesend_after_reset", "setheader_after_first_message"}
 		},
 		Assumptions: []string{"the automata are transcribed from README.md and the property statement", "only client-side links are checked (one client = one id space)"},
 	})
